@@ -721,6 +721,22 @@ def o_poly(case, T):
     got = set(_check_returned(gs, res, "tiles_from_geopolygon"))
     W = Window(M, gs, (kmin[0] - 2, kmax[0] + 2), (kmin[1] - 2, kmax[1] + 2))
     q = sp.bounds
+    # the optional geobox cache is an optimisation: a dict already filled by an earlier query (a box query over the
+    # neighbourhood, or the query's own bounding rectangle as a polygon) must not change the answer
+    cache = {}
+    wb = (min(r[0] for r in W.tiles.values()), min(r[1] for r in W.tiles.values()), max(r[2] for r in W.tiles.values()), max(r[3] for r in W.tiles.values()))
+    if (idx[0] + idx[1]) % 2 == 0:
+        warm = _collect(gs.tiles(geom.BoundingBox(*wb, crs=mk_crs_spec(case["g"]["crs"])), cache))
+        T.cls("cache_warmed_by_box_query")
+    else:
+        warm = _collect(gs.tiles_from_geopolygon(geom.box(*q, mk_crs_spec(case["g"]["crs"])), cache))
+        T.cls("cache_warmed_by_polygon_query")
+    got_c = [tuple(map(int, i)) for i, _ in _collect(gs.tiles_from_geopolygon(gp, cache))]
+    require(
+        sorted(got_c) == sorted(got),
+        "tiles_from_geopolygon with a geobox_cache filled by an earlier query (%d tiles) returns %r, without a cache %r (%s %r)",
+        len(warm), sorted(got_c)[:12], sorted(got)[:12], case["poly"]["kind"], [tuple(p) for p in rings[0][:4]],
+    )
     noise = _noise(M, max(W.maxabs, max(abs(v) for v in q), abs(M.of[0]), abs(M.of[1])))
     shrink = max(1e-6, 4 * (1.2 * TOL + noise))
     nreq = nforb = namb = 0
